@@ -5,7 +5,7 @@ import random
 LEVEL = 'exploration'
 RULE = ('all 2^7 subsets of {--gc (1-3 values), -G flag(s), --coverage, '
         '--profile cProfile, --buffer, warnings= argument, -D with scripted '
-        'stdin} x 13 endings {normal, failing tests, exception from a layer '
+        'stdin} x 14 endings {a feature's own tear-down raising (stray empty profile file), normal, failing tests, exception from a layer '
         'testSetUp hook, exception from a layer testTearDown hook (also '
         'around a test skipped in body/setUp, interrupted, or with several '
         'result events), KeyboardInterrupt in a test body / setUp / '
@@ -35,7 +35,11 @@ ENDINGS = ['normal', 'failing', 'testSetUp_raises', 'testTearDown_raises',
            # pass/fail event yet (skip, interrupt) or several events
            'skipbody+testTearDown_raises', 'skipsetup+testTearDown_raises',
            'kbint_body+testTearDown_raises', 'multi+testTearDown_raises',
-           'subskip+testSetUp_raises']
+           'subskip+testSetUp_raises',
+           # a feature's own tear-down raises after the test phase: a stray
+           # empty profile file makes Profiling.global_teardown() fail
+           # (EOFError) - everything else must still be put back
+           'stray_prof']
 
 
 def EXHAUSTIVE(tier):
@@ -185,6 +189,11 @@ def run_case(case):
     if 'profile' in subset:
         argv += ['--profile', 'cProfile', '--profile-directory', scratch]
         effects['profile'] = True
+        if ending == 'stray_prof':
+            # (written during the run: stale files are removed at set-up)
+            t2['actions'].append({
+                'ph': 'body', 'do': 'write_file', 'text': '',
+                'path': os.path.join(scratch, 'tests_profile.stray.prof')})
     if 'buffer' in subset:
         opts['buffer'] = True
     if 'warnings' in subset:
@@ -250,6 +259,8 @@ def run_case(case):
         elif ending.startswith('kbint'):
             pass
         # an abort is only legitimate for the endings that inject one
+        if ending == 'stray_prof' and 'profile' in subset:
+            C('feature_teardown_raised')
         if ending in ('normal', 'failing', 'stop') and 'pm' not in subset:
             V('run-aborted', 'run-raised', tb=(w.raised_tb or '')[-700:])
     diff = {k: (before.get(k), after.get(k)) for k in before
